@@ -206,6 +206,45 @@ pub fn read_blocking(cell: &[u8], leaf_reader: &StoreReader) -> Vec<u8> {
     value
 }
 
+/// Drive the real [`AsyncReader`] over a caller-chosen schedule (`None`: submit a request,
+/// `Some(i)`: the completion of request `i` arrives carrying `pages[i]`). Returns the outcome of
+/// every submit and the value once the reader reports one.
+#[cfg(feature = "verif-hooks")]
+pub fn verif_async_read(
+    file: std::fs::File,
+    cell: &[u8],
+    pages: &[Vec<u8>],
+    schedule: &[Option<usize>],
+) -> (Vec<Option<usize>>, Option<Vec<u8>>) {
+    let page_pool = crate::io::PagePool::new();
+    let io_pool = crate::io::start_io_pool(1, page_pool.clone());
+    let io_handle = io_pool.make_handle();
+    let bump = PageNumber(
+        (file.metadata().map(|m| m.len()).unwrap_or(0) / crate::io::PAGE_SIZE as u64) as u32,
+    );
+    let store = crate::beatree::allocator::Store::open(&page_pool, std::sync::Arc::new(file), bump, None)
+        .expect("store over the scratch file");
+    let store_reader = StoreReader::new(store, page_pool.clone());
+
+    let mut reader = AsyncReader::new(cell, store_reader);
+    let mut submits = Vec::new();
+    let mut value = None;
+    for event in schedule {
+        match event {
+            None => submits.push(reader.submit(&io_handle, 0)),
+            Some(index) => {
+                let mut page = page_pool.alloc_fat_page();
+                page[..].copy_from_slice(&pages[*index]);
+                if let Some(v) = reader.complete(*index, page) {
+                    value = Some(v);
+                    break;
+                }
+            }
+        }
+    }
+    (submits, value)
+}
+
 /// A non-blocking reader for an overflow value.
 pub struct AsyncReader {
     value: Vec<u8>,
